@@ -17,9 +17,19 @@ from lib import common, pipeline, render
 from lib.common import ToolError
 
 
+def _uniq(rows, n=10 ** 9):
+    """distinct simulated rows in a deterministic order (by content hash), at most n"""
+    import hashlib
+    seen = {}
+    for r in rows:
+        k = json.dumps(r, sort_keys=True)
+        seen.setdefault(hashlib.sha256(k.encode()).hexdigest(), r)
+    return [seen[h] for h in sorted(seen)][:n]
+
+
 def run(ctx):
     rnd = common.rng(ctx, "c02")
-    n_expr, n_prog = (300, 150) if ctx.quick else (6000, 1243)
+    n_expr, n_prog = (300, 150) if ctx.quick else (2500, 1243)
     with ctx.timed("tlc_gen"):
         ge = common.tlc(ctx, "GenExpr", cfg="GenExpr_d1" if ctx.quick else "GenExpr_d2", workers=8, timeout=3000)
         common.require_tlc_ok(ctx, ge, "GenExpr")
@@ -27,14 +37,15 @@ def run(ctx):
         common.require_tlc_ok(ctx, gp, "GenProg")
         gd = common.tlc(ctx, "GenData", cfg="GenData", workers=8, timeout=3000)
         common.require_tlc_ok(ctx, gd, "GenData")
-        gc = common.tlc(ctx, "GenCtl", cfg="GenCtl_quick" if ctx.quick else "GenCtl_full", workers=8, timeout=6000)
+        gc = common.tlc(ctx, "GenCtl", cfg="GenCtl_quick", workers=8, timeout=6000)
+        gc_sim = _uniq(common.tlc(ctx, "GenCtl", cfg="GenCtl_full", workers=1, timeout=1500, simulate=300, depth=7)["cases"]["CASE"], 1500) if not ctx.quick else []
         common.require_tlc_ok(ctx, gc, "GenCtl")
         go = common.tlc(ctx, "GenColl", cfg="GenColl_2", workers=8, timeout=6000)
         common.require_tlc_ok(ctx, go, "GenColl")
         gj = common.tlc(ctx, "GenObj", cfg="GenObj_2", workers=8, timeout=6000, want_tags=("CASE", "DECLS"))
         common.require_tlc_ok(ctx, gj, "GenObj / Sound")
-        gj_sim = common.tlc(ctx, "GenObj", cfg="GenObj_sim", workers=8, timeout=1500, simulate=1000, depth=6)["cases"]["CASE"] if not ctx.quick else []
-        go_sim = common.tlc(ctx, "GenColl", cfg="GenColl_sim", workers=8, timeout=1500, simulate=1500, depth=6)["cases"]["CASE"] if not ctx.quick else []
+        gj_sim = _uniq(common.tlc(ctx, "GenObj", cfg="GenObj_sim", workers=1, timeout=1500, simulate=400, depth=6)["cases"]["CASE"]) if not ctx.quick else []
+        go_sim = _uniq(common.tlc(ctx, "GenColl", cfg="GenColl_sim", workers=1, timeout=1500, simulate=600, depth=6)["cases"]["CASE"]) if not ctx.quick else []
     erows, prows = ge["cases"]["CASE"], gp["cases"]["CASE"]
 
     def pick(rows, n):
@@ -61,9 +72,9 @@ def run(ctx):
     cases += [pipeline.prog_case(r, k) for k, r in enumerate(pick(prows, n_prog))]
     drows = gd["cases"]["CASE"]
     cases += [pipeline.data_case(r, k) for k, r in enumerate(pick(drows, 110 if ctx.quick else 1396))]
-    cases += [pipeline.ctl_case(r, k) for k, r in enumerate(pick(gc["cases"]["CASE"], 120 if ctx.quick else 3000))]
-    cases += [pipeline.obj_case(r, k, gj["cases"]["DECLS"][0]) for k, r in enumerate(pick(gj["cases"]["CASE"], 100 if ctx.quick else 2000) + gj_sim)]
-    cases += [pipeline.coll_case(r, k) for k, r in enumerate(pick(go["cases"]["CASE"], 160 if ctx.quick else 3000) + go_sim)]
+    cases += [pipeline.ctl_case(r, k) for k, r in enumerate(pick(gc["cases"]["CASE"], 120 if ctx.quick else 1500) + gc_sim)]
+    cases += [pipeline.obj_case(r, k, gj["cases"]["DECLS"][0]) for k, r in enumerate(pick(gj["cases"]["CASE"], 100 if ctx.quick else 1000) + gj_sim)]
+    cases += [pipeline.coll_case(r, k) for k, r in enumerate(pick(go["cases"]["CASE"], 160 if ctx.quick else 1500) + go_sim)]
     with ctx.timed("self_check"):
         rej = pipeline.self_check_exprs(ctx, [c for c in cases if c["kind"] == "expr"])
         rej.update(pipeline.self_check_progs(ctx, [c for c in cases if c["kind"] in ("prog", "coll", "obj")]))
